@@ -128,7 +128,7 @@ def near_trl_scenario(rng, ctype, F):
     return sc, unk, var
 
 
-def lm_scenario(rng, ctype, r, c, F, radius):
+def lm_scenario(rng, ctype, r, c, F, radius, corr_only=False):
     for _ in range(8):
         sc = calgen.Scenario(ctype, r, c, F, rng)
         sc.sufficient_recipe(extras=0)
@@ -148,7 +148,15 @@ def lm_scenario(rng, ctype, r, c, F, radius):
         k = rng.integers(0, 4)
         truth = (rng.standard_normal() + 1j * rng.standard_normal()) * 0.5 + \
             0.1 * (rng.standard_normal(F) + 1j * rng.standard_normal(F))
-        prm = Param.unknown(truth, guess_param(rng, truth, radius, F))
+        if corr_only:
+            # no plain unknown anywhere: every solved parameter is correlated
+            # with a KNOWN value `radius` away, so weakly (sigma 1e5..1e7)
+            # that the pull towards it is far below every tolerance and the
+            # solved value must be the truth
+            prm = Param.correlated(truth, guess_param(rng, truth, radius, F),
+                                   10 ** rng.uniform(5, 7))
+        else:
+            prm = Param.unknown(truth, guess_param(rng, truth, radius, F))
         if k == 0 or p == 1:
             # unknown single reflect on one port only
             q = int(rng.choice(ports))
@@ -179,7 +187,7 @@ def lm_scenario(rng, ctype, r, c, F, radius):
             sc.add_reflect([q], [prm])
     # correlated parameter whose truth equals (or nearly equals) its correlate
     corr = None
-    if rng.random() < 0.35:
+    if not corr_only and rng.random() < 0.35:
         base = unknowns[0][1]
         delta = 0.0 if rng.random() < 0.5 else 10 ** rng.uniform(-6, -3)
         tr = base.values + delta
@@ -279,10 +287,14 @@ def work(chunk_id, payload):
         if far:
             radius = float(rng.choice([0.4, 0.8, 1.5]))
             it = int(rng.choice([30, 100, 100]))
-        sc, unk, info = lm_scenario(rng, ctype, r, c, F, radius)
+        corr_only = (not far) and rng.random() < 0.15
+        sc, unk, info = lm_scenario(rng, ctype, r, c, F, radius, corr_only)
         if sc is None:
             bump("skipped_not_well_determined")
             continue
+        if corr_only:
+            info["kinds"] = ["corr_only"] + list(info.get("kinds", []))
+            bump("lm_scenarios_with_correlated_parameters_only")
         settings = dict(p_tol=tol, iter=it,
                         m_error=(rng.random() < (0.6 if far else 0.3) and
                                  ctype not in ("T16", "U16")))
@@ -520,6 +532,8 @@ def main():
              "unknown matrix) and correlated parameters, tolerances "
              "1e-4..1e-12 (a third with a looser, independent et_tolerance), "
              "iteration limits 1..100, with/without m_error; "
+             "15 % have no plain unknown at all (every solved parameter weakly "
+             "correlated with a known value); "
              "a fifth of the LM solves start 0.4..1.5 away from the truth "
              "(termination, failure report and sanitizers only); "
              "resolve: one unknown solved repeatedly on different grids, its "
